@@ -205,10 +205,11 @@ PROPS = {
         level_text="Lean 4 theorems on the bit-exact soft-float model (verified pack/decode theory: RNE, exactness, magic-constant additions, rint, quotient by 2^j) for every conversion and variant, all m, including the repaired wide double->int64 kernel (D7) on |x/d| < 2^52 and its exactness up to 2^63; bit-exact correspondence at and around every domain boundary",
         design_ref="DESIGN.md §5 C14",
         module="SpqProofs.Properties.C14",
+        gen=["dispatch"],   # C14Sel.to_znx64_constructor_matches_library
         extra_modules=["SpqProofs.Properties.Cover", "SpqProofs.Properties.C14Sel"],
         variants={"plain": None},
         streams=dict(quick=[("f6_conv", "plain"), ("cv_conv32", "plain")], thorough=[("f6_conv", "plain"), ("cv_conv32", "plain")]),
-        proved="on the bit-exact soft-float model, for every m (through the loop / shuffle structure of each kernel), every divisor 2^j with finite table constants and every input pattern in the stated magnitude domain: from_znx64 exact (cast and add-2^51/or/sub trick, |x|<2^50); to_znx64 ref (|x/d|<2^63) and bnd50 (|x/d|<2^50) within 1/2 of x/d; cplx_from_znx32 / cplx_from_tnx32 exact for every int32 (ref and AVX2 shuffle kernel); cplx_to_tnx32 ref and AVX2 = round(x*2^32/d) mod 2^32 for |x/d|<2^18; reim_to_tnx ref = avx bit-for-bit and x/d - integer within 2^(L-51), result in [-1/2,1/2), for every log2overhead L<=48 with the table recomputed by the model of the constructor; to_znx64_bnd63 / to_znx64_bnd63_wide: the repaired wide kernel (D7) within 1/2 of x/d for |x/d| < 2^52, ties included, and exact up to 2^63; the pre-repair kernel is kept as bnd63OffsetOld with its kernel-checked counterexample at x = pred(d/2); to_tnx_basic_ref_partial (rint form, exact x/d - n, under a no-underflow hypothesis) Properties/C14Sel.lean: to_znx64_selection (which kernel init_reim_to_znx64_precomp installs, from the model of the constructor validated by f6_conv) and to_znx64_dispatch (constructor + selected kernel within 1/2 of x/d in one statement for m < 2^32, -1020 <= j <= 971, finite input with |x/d| < 2^min(log2bound, 52); the (2m) % 4 = 0 side condition is derived).",
+        proved="on the bit-exact soft-float model, for every m (through the loop / shuffle structure of each kernel), every divisor 2^j with finite table constants and every input pattern in the stated magnitude domain: from_znx64 exact (cast and add-2^51/or/sub trick, |x|<2^50); to_znx64 ref (|x/d|<2^63) and bnd50 (|x/d|<2^50) within 1/2 of x/d; cplx_from_znx32 / cplx_from_tnx32 exact for every int32 (ref and AVX2 shuffle kernel); cplx_to_tnx32 ref and AVX2 = round(x*2^32/d) mod 2^32 for |x/d|<2^18; reim_to_tnx ref = avx bit-for-bit and x/d - integer within 2^(L-51), result in [-1/2,1/2), for every log2overhead L<=48 with the table recomputed by the model of the constructor; to_znx64_bnd63 / to_znx64_bnd63_wide: the repaired wide kernel (D7) within 1/2 of x/d for |x/d| < 2^52, ties included, and exact up to 2^63; the pre-repair kernel is kept as bnd63OffsetOld with its kernel-checked counterexample at x = pred(d/2); to_tnx_basic_ref_partial (rint form, exact x/d - n, under a no-underflow hypothesis) Properties/C14Sel.lean: to_znx64_selection (which kernel init_reim_to_znx64_precomp installs, from the model of the constructor), to_znx64_constructor_matches_library (Gen obligation: that model selects the kernel the LIVE library installed, for bounds 50/51/52/63, 5 CPU masks, m = 2^0..2^16) and to_znx64_dispatch (constructor + selected kernel within 1/2 of x/d in one statement for m < 2^32, -1020 <= j <= 971, finite input with |x/d| < 2^min(log2bound, 52); the (2m) % 4 = 0 side condition is derived).",
         not_proved="Inf/NaN inputs are not modelled by Spq.F64 (excluded by the magnitude bounds or by explicit finiteness hypotheses); log2overhead 49..52 are outside the property; to_tnx_basic_ref below the underflow threshold of the quotient (error <= 2^-1075, inside the tolerance) is not covered (_partial); the reim int32 conversions are NOT_IMPLEMENTED stubs in the library (Cover.reim32_all_entry_points_abort)",
         assumptions=COMMON_ASSUME + ["divisor/2., 1./divisor and 2^32/divisor are compiled as IEEE divisions or exact multiplications (bit-identical for powers of two)"],
     ),
